@@ -285,6 +285,11 @@ func (r *wireRun) prefixes(kind string, mk func() tds.Package, body []byte, f in
 	if len(body) > 4000 {
 		return
 	}
+	// C07 speaks about valid encodings: bytes the parser itself does not accept completely (a writer
+	// defect, which is C06's matter) are not used
+	if st, consumed := readPkg(mk(), body); st != "ok" || consumed != len(body) {
+		return
+	}
 	out := make([]string, 0, len(body))
 	counts := map[string]int{}
 	firstBad := -1
